@@ -33,7 +33,8 @@ C14_complete_PositionDimensionMismatch C14_complete_ExtentDimensionMismatch C14_
 C14_complete_ReferenceUnitsIncompatible C14_complete_InvalidUnit C14_complete_feature C14_complete_NoPositions
 C14_complete_PositionsExtentsMismatch C14_complete_PositionsDimensionMismatch C14_complete_ExtentsDimensionMismatch
 C14_complete_mtag_units C14_complete_property C14_catalogue_distinct C14_catalogue_complete
-C14_complete_NoID_counterexample C14_complete_NoID_partial
+C14_complete_NoID_counterexample C14_complete_NoID_partial C14_emits_entity C14_emits_dims
+C14_emits_feature_property C14_emits_tags C14_emits_array C14_traversal_order
 """.split()]
 ASSUMPTIONS = [
     "the validator reads the file only through the public API; the model works on a description of what those reads "
@@ -1105,7 +1106,7 @@ def run_case(ctx, recipe):
 
 def correspondence(ctx):
     corpus = [("corpus", c[1], []) for c in core.load_corpus(PROP) if c and c[0] == "recipe"]
-    cases = corpus + gen_cases(ctx, "all", ctx.budget(25, 150), ctx.budget(14, 60), ctx.budget(14, 40),
+    cases = corpus + gen_cases(ctx, "all", ctx.budget(20, 150), ctx.budget(12, 60), ctx.budget(14, 40),
                                ctx.budget(14, 60), exhaustive_bases=ctx.budget(0, 2))
     descs, impls = [], []
     dist = {"labels": {}, "injections": {}, "impl_errors": {}, "messages": {}}
@@ -1206,22 +1207,31 @@ def oracle(ctx, broken, hints):
     cases += [("corpus", c[1], c[2] if len(c) > 2 else []) for c in core.load_corpus(PROP) if c and c[0] == "recipe"]
     cases += _fixed_cases(ctx)
     if broken:
-        cases += gen_cases(ctx, "property", 60, ctx.budget(40, 120), 30, 30, exhaustive_bases=ctx.budget(1, 3))
+        cases += gen_cases(ctx, "property", ctx.budget(20, 100), ctx.budget(15, 120), ctx.budget(20, 30),
+                           ctx.budget(20, 30), exhaustive_bases=ctx.budget(1, 3))
     else:
-        cases += gen_cases(ctx, "property", ctx.budget(10, 60), ctx.budget(8, 40), ctx.budget(10, 30),
-                           ctx.budget(10, 40), exhaustive_bases=ctx.budget(0, 1))
+        cases += gen_cases(ctx, "property", ctx.budget(6, 60), ctx.budget(6, 40), ctx.budget(8, 30),
+                           ctx.budget(8, 40), exhaustive_bases=ctx.budget(0, 1))
     failures = []
     seen = set()
     kinds = {}
+    known = [e for e in core.load_known(PROP) if e.get("status") == "open"]
+    fresh = 0
+    evaluated = 0
     for label, recipe, injs in cases:
+        if broken and fresh >= 8:
+            break       # enough concrete failing inputs outside the known findings
+        evaluated += 1
         kinds[label] = kinds.get(label, 0) + 1
         for fl in check_recipe(ctx, recipe, injs):
             key = (fl.what, core.canon(recipe))
             if key not in seen:
                 seen.add(key)
                 failures.append(fl)
+                if not any(matches_known(e, fl) for e in known):
+                    fresh += 1
     failures.sort(key=lambda fl: len(core.canon(fl.input)))
-    return {"evaluations": len(cases), "failures": failures, "cases": kinds}
+    return {"evaluations": evaluated, "failures": failures, "cases": kinds}
 
 
 # ---------------------------------------------------------------------------------------
